@@ -368,6 +368,46 @@ FlattenResult(hs, R) ==
       files |-> [p \in keep |-> [f \in fm(p) |-> ent(p, f)]]]
 
 (***************************************************************************)
+(* verify -pl: the packing list is a one-generation history without        *)
+(* children (history.load_from_packing_list_path)                          *)
+(***************************************************************************)
+PackingHist(R, flat) ==
+  (R :> <<[n |-> 1, files |-> [p \in DOMAIN flat.files |-> [ents |-> flat.files[p], prev |-> NoPath]],
+           dirs |-> <<>>, root |-> [has |-> FALSE, fmts |-> {}], pats |-> flat.pats, refs |-> {},
+           proc |-> "flatten", croot |-> R, ceff |-> flat.pats, snap |-> <<>>]>>)
+VerifyPLResult(dk, R, flat) ==
+  \* children are not loaded: every file below R is looked up in the packing list itself
+  LET hs  == PackingHist(R, flat)
+      dk1 == [p \in {q \in DOMAIN dk : Below(R, q)} |-> dk[p]]
+  IN VerifyResult(hs, dk1, R, <<>>, NoPath)
+
+(***************************************************************************)
+(* info                                                                    *)
+(***************************************************************************)
+\* info ROOT: for the history at R and every history below it, the generation numbers in order
+InfoResult(hs, dk, R) ==
+  IF Len(GensOf(hs, R)) = 0 THEN [exit |-> 30, listing |-> <<>>]
+  ELSE [exit |-> 0,
+        listing |-> [h \in {x \in Visible(hs, dk, R) : Len(GensOf(hs, x)) > 0} |-> [i \in DOMAIN hs[h] |-> hs[h][i].n]]]
+\* info -sf FILE [ROOT]: one line per recorded digest in the history at H (nearest enclosing root)
+NearestRoot(hs, dk, s) ==
+  LET C == {h \in HRoots(hs) : Below(h, s) /\ IsDir(dk, h)}
+  IN IF C = {} THEN NoPath ELSE Deepest(C)
+InfoSFResult(hs, H, s) ==
+  IF H = NoPath \/ Len(GensOf(hs, H)) = 0 THEN [exit |-> 30, lines |-> <<>>]
+  ELSE LET gens == hs[H]
+           rp == Rel(H, s)
+           RECURSIVE G(_)
+           G(i) == IF i > Len(gens) THEN <<>>
+                   ELSE LET r == RecOf(gens[i], rp)
+                            here == IF r = <<>> THEN <<>>
+                                    ELSE [k \in DOMAIN EntFmts(r[1]) |->
+                                            LET f == EntFmts(r[1])[k] IN
+                                            [n |-> gens[i].n, f |-> f, c |-> r[1].ents[f].c, a |-> r[1].ents[f].a]]
+                        IN here \o G(i + 1)
+       IN [exit |-> 0, lines |-> G(1)]
+
+(***************************************************************************)
 (*                        Layer P : the properties                         *)
 (* pre / post are history functions, dk the media tree (commands never     *)
 (* change it), op the operation record, ob the observation record          *)
@@ -539,4 +579,40 @@ P_C12_Accumulate(pre, post, op, ob) ==
             /\ Cardinality(SeqSet(new)) = Len(new)
             /\ (op.op = "create" => SeqSet(ob.eff) \subseteq SeqSet(new))
             /\ (h = op.R /\ op.op = "create" => new = ob.eff)
+
+\* ---- C18 -------------------------------------------------------------------------------
+\* flat: [files : [path -> [fmt -> [c, a]]], ndirs, proc] as read from the written packing list
+P_C18_Summary(pre, dk, op, ob, flat) ==
+  \* (a history that never recorded a file is flattened into nothing at all; not asserted)
+  (op.op = "flatten" /\ ob.exit = 0 /\ Visible(pre, dk, op.R) = {op.R} /\ ~HasRenames(pre, dk, op.R)
+     /\ \E i \in DOMAIN GensOf(pre, op.R) : DOMAIN GensOf(pre, op.R)[i].files # {})
+    => LET gens == GensOf(pre, op.R)
+           paths == UNION {DOMAIN gens[i].files : i \in DOMAIN gens}
+           okgens(p, f) == {i \in DOMAIN gens : p \in DOMAIN gens[i].files /\ f \in DOMAIN gens[i].files[p].ents
+                                                  /\ gens[i].files[p].ents[f].a # "failed"}
+           fm(p) == {f \in SeqSet(Fmts) : okgens(p, f) # {}}
+       IN /\ DOMAIN flat.files = {p \in paths : fm(p) # {}}
+          /\ \A p \in DOMAIN flat.files :
+                /\ DOMAIN flat.files[p] = fm(p)
+                /\ \A f \in fm(p) : flat.files[p][f].c = gens[Min(okgens(p, f))].files[p].ents[f].c
+          /\ flat.ndirs = 0 /\ flat.proc = "flatten"
+P_C18_VerifyPL(dk, sealedDisk, op, ob, flat, ign) ==
+  \* the tree is "unchanged" when it holds exactly the files the packing list describes, with the
+  \* contents it describes (flat.complete: no other non-ignored file exists)
+  op.op = "verifypl" =>
+    LET same == \A p \in DOMAIN flat.files : p \in ign \/
+                   (IsFile(dk, p) /\ \A f \in DOMAIN flat.files[p] : flat.files[p][f].c = dk[p])
+        altered == \E p \in DOMAIN flat.files : IsFile(dk, p) /\ p \notin ign /\
+                      \E f \in DOMAIN flat.files[p] : flat.files[p][f].a = "original" /\ flat.files[p][f].c # dk[p]
+    IN /\ (same /\ flat.complete => ob.exit = 0)
+       /\ (altered => ob.exit = 11)
+
+\* ---- C19 -------------------------------------------------------------------------------
+P_C19_Info(pre, dk, op, ob) ==
+  op.op = "info" => LET r == InfoResult(pre, dk, op.R) IN ob.exit = r.exit /\ (r.exit = 0 => ob.listing = r.listing)
+P_C19_InfoSF(pre, dk, op, ob) ==
+  op.op = "infosf" =>
+    LET H == IF op.R = NoPath THEN NearestRoot(pre, dk, op.S) ELSE op.R
+        r == InfoSFResult(pre, H, op.S)
+    IN (op.R = NoPath \/ op.R = NearestRoot(pre, dk, op.S)) => (ob.exit = r.exit /\ (r.exit = 0 => ob.lines = r.lines))
 =============================================================================
